@@ -222,7 +222,7 @@ PROPS = {
         "engine": "byzsim",
         "level": "exploration",
         "budget": {"quick": 60, "thorough": 900},
-        "rule": "one run = a random non-empty subset of 9 entry-point families (tree, acl, kv, diff, handshake, payload, crypto, encoding, pubsub) and 20-120 steps; a step is honest progress (the honest peer edits the tree incl. snapshots and encrypted content; the owner or a joining account appends the next valid ACL record; index grows) or one hostile delivery guarded by the three oracles. "
+        "rule": "[lying remotes are diffed with Diff and with the comparing variant (what key-value sync runs); claimed handshake lengths include 2^29 and the values past the 32-bit sign bit] one run = a random non-empty subset of 9 entry-point families (tree, acl, kv, diff, handshake, payload, crypto, encoding, pubsub) and 20-120 steps; a step is honest progress (the honest peer edits the tree incl. snapshots and encrypted content; the owner or a joining account appends the next valid ACL record; index grows) or one hostile delivery guarded by the three oracles. "
                 "Hostile inputs are derived from the valid message for the victim's current state by a type-independent protobuf wire mutator (field removed / duplicated / reordered / renumbered, wire type changed, varint zero / extreme / bit flip, byte string emptied / shortened to 1-40 bytes / replaced by 1,31,32,33,64,200 random bytes, length prefix edited to +-1, +100, 0, 2^20, 2^31, 2^32-1, 2^62, truncation anywhere, field spliced from another message of the same world, raw bit flips / random bytes / duplicated segments) "
                 "applied at every nesting level: sync envelope, tree message, change envelope, signed change content (then signed again by owner, writer or reader so that it passes the signature check), ACL record envelope, signed record, ACL content incl. encrypted read keys and invite keys (signed again by owner or member), key-value envelope and signed inner value, head-sync request, handshake frame payloads and headers (types 0-4, sizes 0..2^29, cut frames), space header / ACL root / settings root, key and ciphertext blobs, encoded rpc frames incl. snappy blocks that claim 2^20..2^29 decoded bytes, pubsub frames; "
                 "plus reference edits on changes (0-3 arbitrary parents incl. trimmed, unknown and odd ids, duplicated parents, re-pointed snapshot base, flipped snapshot flag, replaced ACL head / read key id, attachment to the root after snapshots) and on records (previous id replaced), arbitrary heads and snapshot paths, a whole hostile tree offered for creation, a fetch of a tree the victim does not hold answered with corrupted or missing responses, an honest head-sync server whose answers are corrupted on the wire, and an ldiff remote that lies. "
@@ -239,7 +239,7 @@ PROPS = {
         "engine": "kvsim",
         "level": "exploration",
         "budget": {"quick": 90, "thorough": 900},
-        "rule": "one run = 2-3 stores (own any-store, own device key, accounts owner/writer with several devices) over a scripted ACL (writer and a later-removed member added, reader added, member removed with rotation), 10-70 events: local Set on 1-3 keys (fake clock advanced so timestamps differ), pushed batches delivered in any order / dropped / duplicated, "
+        "rule": "[relabelled values go to another device's slot or to the slot of a longer key of the same device] one run = 2-3 stores (own any-store, own device key, accounts owner/writer with several devices) over a scripted ACL (writer and a later-removed member added, reader added, member removed with rotation), 10-70 events: local Set on 1-3 keys (fake clock advanced so timestamps differ), pushed batches delivered in any order / dropped / duplicated, "
                 "sync exchanges run by the real services (SyncWithPeer over a harness connection into the peer's HandleStoreDiffRequest / HandleStoreElementsRequest; the stream from the server may break after k messages), byzantine or unusual values pushed to a node (any device signing for its account citing any record; relabelled slot; foreign account signature; swapped signatures; byte edited after signing; unknown ACL record; valid value of a writer's second device with a skewed clock; removed member), "
                 "and - in 30% of runs - one node on a faultstore whose local and remote writes fail at a seeded storage call. 25% of runs keep some nodes behind on the ACL (safety only). "
                 "Oracles after every event on the touched node: stored contents = reference model (per slot the valid value with the greatest timestamp received; validity = both signatures over exactly the stored bytes, slot = key + '-' + signing device named inside them, signer a writer at the cited and locally known ACL record per the harness's own timeline); "
@@ -341,7 +341,7 @@ PROPS = {
         "level": "exploration",
         "budget": {"quick": 40, "thorough": 600},
         "race_leg": True,
-        "rule": "one run = a standalone stream pool (dial workers 1-3, dial queue 1-4) with 2-4 caller tasks x 2-7 calls out of Send (async, through the dial pool and OpenStream), SendById, Broadcast by tags, AddStream, RemoveTagsById, over 2-4 peers and 1-3 tags; streams have queue sizes 1-5 and are healthy, fail at the k-th write, or block forever in MsgSend; "
+        "rule": "[buffer bound also taken from outside: for every written copy, the copies accepted before that write and written after it number at most the queue size; when Broadcast reports an error every stream that carried a tag before and after the call must still have been offered its copy] one run = a standalone stream pool (dial workers 1-3, dial queue 1-4) with 2-4 caller tasks x 2-7 calls out of Send (async, through the dial pool and OpenStream), SendById, Broadcast by tags, AddStream, RemoveTagsById, over 2-4 peers and 1-3 tags; streams have queue sizes 1-5 and are healthy, fail at the k-th write, or block forever in MsgSend; "
                 "remotes send 0-2 messages that add/remove tags through the stream context and may close; OpenStream and the peer getter may fail. The seeded scheduler orders every pass through MsgSend, MsgRecv, OpenStream, the peer getter, and the 7 yield points inside the pool (before each lock acquisition and in streamClose). "
                 "Oracles after every grant: no caller is blocked inside a pool call (each call finishes within its own grants even with a blocked stream present); per stream the copies reaching MsgSend carry strictly increasing acceptance numbers (written in the order accepted, never twice), are addressed to that stream's peer and are copies; "
                 "queue length <= configured size; indexes consistent (no dead or duplicate stream ids under peers/tags, tags <-> tag index agree); no log.Fatal. After faults stop every healthy stream drains completely although blocked streams stay stuck; after all remotes close the pool's streams/byPeer/byTag are empty.",
